@@ -70,6 +70,13 @@ def _cases(tier, rng):
                           [['filter', ['raise_if_mod', 3, 0]], ['count', False]]):
                 yield {'kind': 'mux', 'term': [ctx + [inner], h], 'items': [1, 2, 4, 3, 5, 7], 'outer_handler': True}
                 yield {'kind': 'mux', 'term': [ctx + [inner], h, ['count', False]], 'items': [3, 1], 'outer_handler': True}
+    # an unhandled error raised UPSTREAM of a group_by / split / roll by the FIRST item of its key (no group, segment or window
+    # exists yet to carry it) still surfaces as on_error, at that item
+    for ctx in (['group_by', ['mod', 2]], ['split', ['floordiv', 2]], ['roll', 2, 1], ['roll', 2, 2]):
+        for items in ([3, 1, 2], [1, 3, 2], [3], [6, 3, 1]):
+            yield {'kind': 'mux', 'term': [['map', ['raise_if_mod', 3, 0]], ctx + [[['count', False]]]], 'items': items, 'fail': [3, 0], 'op': 'map'}
+            yield {'kind': 'mux', 'term': [['group_by', ['mod', 2], [['scan', ['raise_if_mod', 3, 0], 0, False, None], ctx + [[['to_list']]]]]],
+                   'items': items, 'outer_first': True}
     n = {'quick': 1500, 'thorough': 10000, 'search': 600}[tier]
     for _ in range(n):
         op, (k, r), kind = failing_op(rng)
@@ -131,6 +138,14 @@ def _strip(term):
 def _oracle(case, r):
     if 'harness_exc' in r:
         return 'real code raised: ' + r['harness_exc']
+    if case.get('outer_first') and not r.get('raised'):
+        xs = [dec(x) for x in case['items']]
+        first = [i for i, x in enumerate(xs) if x % 3 == 0]
+        pos = [i for i, c in enumerate(r['chunks']) if any('x' in o for o in c)]
+        if first and (not pos or pos[0] != first[0] + 1):
+            return ('item %s (step %d) makes scan raise upstream of %s and nothing handles the error: it must surface as on_error at that '
+                    'item; observed %s' % (xs[first[0]], first[0], muxprop.json.dumps(case['term'][0][2][1])[:100], str(r['chunks'])[:300]))
+        return None
     if case.get('outer_handler') and not r.get('raised'):
         xs = [dec(x) for x in case['items']]
         first = [i for i, x in enumerate(xs) if x % 3 == 0]
